@@ -442,6 +442,38 @@ func propC07(o *out, r *rng, thorough bool) {
 			}
 		}
 	}
+	// the values are bound when SetParams is called: what the caller does to its map afterwards changes nothing
+	for _, tmpl := range []string{"SELECT v FROM m WHERE host = $p AND n = $q", "SELECT $p FROM $q", "SELECT v FROM m WHERE x =~ $p OR y = $q"} {
+		for _, v := range vals {
+			orig := map[string]interface{}{"p": v, "q": map[string]interface{}{"identifier": "usage"}}
+			parse := func(mutate bool) string {
+				m := map[string]interface{}{"p": v, "q": map[string]interface{}{"identifier": "usage"}}
+				out := ""
+				safely(func() {
+					p := influxql.NewParser(strings.NewReader(tmpl))
+					p.SetParams(m)
+					if mutate {
+						m["p"] = "changed afterwards"
+						m["q"].(map[string]interface{})["identifier"] = "other"
+						m["q"].(map[string]interface{})["regex"] = "^x"
+						delete(m, "q")
+						m["r"] = int64(1)
+					}
+					st, err := p.ParseStatement()
+					out = fmt.Sprint(err)
+					if err == nil {
+						out = stmtSexp(st)
+					}
+				})
+				return out
+			}
+			o.count("params-owned")
+			o.checked()
+			if a, b := parse(false), parse(true); a != b {
+				o.fail("", fmt.Sprintf("%q with %v: the caller changed its map after SetParams and the result changed from %s to %s", tmpl, orig, a, b), map[string]interface{}{"op": "params", "text": tmpl, "params": fmt.Sprintf("%#v", orig)})
+			}
+		}
+	}
 	// generated statements with a literal position replaced by a placeholder
 	n := 300
 	if thorough {
